@@ -48,14 +48,18 @@ func VerifH_C17_O1_queue_crash() {
 		want = append(want, vPayload(i)...)
 	}
 	k := verif.Range("crashAt", 0, 4)
+	before := eng.steps
 	if k > 0 {
-		eng.crashAt = eng.steps + k
+		eng.crashAt = before + k
 	}
 	id, err := q.Commit(ctx, vPayload(h))
 	crashed := eng.crashed
+	verif.Observe("crashed", crashed)
+	verif.Observe("commit-failed", err != nil)
 	if !crashed {
 		// no crash: the commit is acknowledged
 		verif.Assert(err == nil && id == ID(h+1), "commit-without-crash")
+		verif.Assert(eng.steps-before <= 4, "crash-range-covers-all-steps")
 		verif.Reach("no-crash")
 	} else {
 		verif.Assert(err != nil, "crashed-commit-not-acknowledged")
@@ -86,6 +90,7 @@ func VerifH_C17_O1_queue_crash() {
 		verif.Assert(bytes.Equal(got, want) || bytes.Equal(got, all), "all-or-nothing")
 	}
 	seen := len(got) / 3
+	verif.Observe("entries-visible", seen)
 	// (d) one more commit succeeds and is visible
 	entryLanded := eng.vFileAt(path, vEntryName(h+1)) != nil
 	_, err = q2.Commit(ctx, vPayload(3))
@@ -102,6 +107,76 @@ func VerifH_C17_O1_queue_crash() {
 	got2, err := vReadAll(ctx, q2)
 	verif.Assert(err == nil, "readable-after-next")
 	verif.Assert(len(got2) == 3*(seen+1) && bytes.HasPrefix(got2, got) && bytes.HasSuffix(got2, vPayload(3)), "next-commit-visible")
+	verif.Reach("end")
+}
+
+// verif:desc C17-O1c the same crash experiment one layer up, through the real journal.Store.commit retry loop and Store.load (cold Store after the crash): the journal loads, its position is h or h+1 (h+1 if acknowledged), and one more Store.commit succeeds and advances the position by one.
+// verif:bounds h in 0..1 earlier commits; crash step k in 1..4 of the interrupted commit or none; atomic or create-then-fill puts; entry bodies are empty ZNG streams (no entry (de)serialisation)
+// verif:outside table contents, zson (un)marshaling, snapshot files, TAIL movement, double crashes
+func VerifH_C17_O1c_store_crash() {
+	ctx := context.Background()
+	eng := vNewEngine(verif.Bool("fill"))
+	_, err := Create(ctx, eng, vJournalPath(), Nil)
+	verif.Assert(err == nil, "create")
+	h := verif.Choose("history", 2)
+	c := vNewClient(eng, 1)
+	c.limit = 9
+	for i := 0; i < h; i++ {
+		c.run(ctx, eng)
+		verif.Assert(c.err == nil, "setup-commit")
+	}
+	k := verif.Range("crashAt", 0, 4)
+	before := eng.steps
+	if k > 0 {
+		eng.crashAt = before + k
+	}
+	c.run(ctx, eng)
+	crashed := eng.crashed
+	verif.Observe("crashed", crashed)
+	verif.Observe("outcome", vOutcome(c.err))
+	if !crashed {
+		verif.Assert(c.err == nil, "commit-without-crash")
+		verif.Assert(eng.steps-before <= 4, "crash-range-covers-all-steps")
+		verif.Reach("no-crash")
+	} else {
+		verif.Assert(c.err != nil, "crashed-commit-not-acknowledged")
+	}
+	cut := eng.crashOp
+	eng.reboot()
+
+	c2 := vNewClient(eng, 2)
+	c2.limit = 9
+	err = c2.store.load(ctx)
+	if strings.HasPrefix(cut, "put-write:HEAD") {
+		verif.Reach("crash-head-truncated")
+		verif.Assert(err == nil, "loads/head-truncated")
+	} else {
+		verif.Assert(err == nil, "loads")
+	}
+	if err != nil {
+		return
+	}
+	at := int(c2.store.at)
+	verif.Observe("position", at)
+	if !crashed {
+		verif.Assert(at == h+1, "acknowledged-visible")
+	} else {
+		verif.Assert(at == h || at == h+1, "all-or-nothing")
+	}
+	entryLanded := eng.vFileAt(vJournalPath(), vEntryName(h+1)) != nil
+	c2.run(ctx, eng)
+	verif.Observe("next-outcome", vOutcome(c2.err))
+	if crashed && entryLanded && at == h {
+		verif.Reach("crash-head-lags")
+		verif.Assert(c2.err == nil, "next-commit/head-lags")
+	} else {
+		verif.Assert(c2.err == nil, "next-commit")
+	}
+	if c2.err != nil {
+		return
+	}
+	c3 := vNewClient(eng, 3)
+	verif.Assert(c3.store.load(ctx) == nil && int(c3.store.at) == at+1, "next-commit-visible")
 	verif.Reach("end")
 }
 
